@@ -33,6 +33,7 @@ from elementpath.sequences import xlist
 from elementpath.sequence_types import is_instance
 from elementpath.xpath_context import XPathSchemaContext
 from elementpath.xpath_tokens import XPathToken, XPathFunction, XPathConstructor
+from elementpath.xpath_tokens.base import is_ordered_pair
 
 from elementpath.xpath1._xpath1_operators import COMPARISON_SYMBOLS
 from .xpath2_parser import XPath2Parser
@@ -558,6 +559,11 @@ def evaluate__value_comparison_operators(self: XPathToken, context: ta.ContextTy
     else:
         msg = "cannot apply {} between {!r} and {!r}".format(self, *operands)
         raise self.error('XPTY0004', msg)
+
+    if self.symbol not in ('eq', 'ne') and \
+            not is_ordered_pair(operands[0], operands[1], self.parser.version):
+        msg = "cannot apply {} between {!r} and {!r}: the type has no order relation"
+        raise self.error('XPTY0004', msg.format(self, *operands))
 
     try:
         return cast(bool, getattr(operator, self.symbol)(*operands))
